@@ -193,7 +193,7 @@ M("c16-getter-swap", "C16", PR, '        "transform": _transform,\n        "inve
   '        "transform": _inv_transform,\n        "inverse": _transform,\n        "jacobian": _jacobian,\n    }\n\n    semantics = {\n        "names": ["Significant wave height", "Zero-up-crossing period"],\n        "symbols": ["H_s", "T_z"],\n        "units": ["m", "s"],\n    }\n\n    return dist_descriptions, fit_descriptions, semantics, transformations\n\n\ndef get_Nonzero', rules=["C16.wiring"])
 M("c17-min", "C17", U, "        frontier_y.append(np.max(y))", "        frontier_y.append(np.min(y))", rules=["C17.result"])
 M("c17-close-x", "C17", U, "    y1 = np.append(coords[:, y_idx], coords[0, y_idx])", "    y1 = np.append(coords[:, y_idx], coords[0, x_idx])", rules=["C17.swap"])
-M("c17-swap", "C17", U, "    if swap_axis:\n        x_idx = 1\n        y_idx = 0\n    else:\n        x_idx = 0\n        y_idx = 1\n\n    coords = contour.coordinates", "    if swap_axis:\n        x_idx = 0\n        y_idx = 1\n    else:\n        x_idx = 0\n        y_idx = 1\n\n    coords = contour.coordinates", rules=["C17.swap"])
+M("c17-swap", "C17", U, "    if swap_axis:\n        x_idx = 1\n        y_idx = 0\n    else:\n        x_idx = 0\n        y_idx = 1\n\n    coords = np.asarray(contour.coordinates", "    if swap_axis:\n        x_idx = 0\n        y_idx = 1\n    else:\n        x_idx = 0\n        y_idx = 1\n\n    coords = np.asarray(contour.coordinates", rules=["C17.swap"])
 M("c17-inrange", "C17", IX, "(T[0, :] <= 1) & (T[1, :] <= 1)", "(T[0, :] <= 1) & (T[1, :] < 1)", rules=["C17.inrange"])
 M("c17-default-num", "C17", U, "            default_lower_limit, default_uppper_limit, endpoint=True, num=10", "            default_lower_limit, default_uppper_limit, endpoint=True, num=5", rules=["C17.default"])
 M("c17-probe-span", "C17", U, "    y2 = [np.min(y1) - y_margin, np.max(y1) + y_margin]", "    y2 = [np.min(y1), np.max(y1) * 0.9]", rules=["C17.probe"])
@@ -274,7 +274,7 @@ M("c20-memo-reader", ["C20"], U, "def read_ec_benchmark_dataset(file_path=None):
   expect="pass", what="an unused memoised helper changes nothing for C20 (C19.globals reports the memo)", rules=None)
 M("c05-memo-args", ["C05", "C19"], D, "        args_with_default = list(self.parameters.values())", "        self._last_args = args_with_default = list(self.parameters.values())",
   rules={"C05": ["C05.stateless"], "C19": ["C19.nomodelwrite"]}, what="evaluation helper writes an attribute")
-M("c17-mutate-contour", ["C17", "C19"], U, "    coords = contour.coordinates\n", "    coords = contour.coordinates\n    coords.sort(axis=0)\n", rules={"C17": ["C17.stateless"], "C19": ["C19.noargmut"]}, what="sorts the caller's coordinates in place")
+M("c17-mutate-contour", ["C17", "C19"], U, "    coords = np.asarray(contour.coordinates, dtype=float)\n", "    coords = contour.coordinates\n    coords.sort(axis=0)\n    coords = np.asarray(coords, dtype=float)\n", rules={"C17": ["C17.stateless"], "C19": ["C19.noargmut"]}, what="sorts the caller's coordinates in place")
 
 # ------------------------------------------------------------------ C10 totality (defect D17, fixed)
 M("c10-ppi-short-data", "C10", I, "        if n_full_chunks == 0:\n            # fewer observations than n_points: one interval that is not full\n            interval_idc = [sorted_idc]\n        elif remainder != 0:", "        if remainder != 0:",
@@ -406,12 +406,12 @@ M("c16-twin-sample-size-ge", "C16", J, "        if n_counter < n:\n            w
 M("c18-tm-fit-any-dimension", "C18", J, "        data = np.array(data)\n        if data.ndim != 2 or data.shape[-1] != self.n_dim:\n            raise ValueError(\n                \"The dimension of data does not match the \"\n                \"dimension of the model. \"\n                f\"The model has {self.n_dim} dimensions, \"\n                f\"but the data has shape {data.shape}.\"\n            )\n        return self.model.fit(self.transform(data), *args, **kwargs)",
   "        return self.model.fit(self.transform(data), *args, **kwargs)", rules=["C18.guard"], what="original defect (second audit C18#2)")
 M("c18-tm-pdf-nan", ["C18", "C06"], J, "        x = np.asarray_chkfinite(x)\n        return self.model.pdf(self.transform(x)) * self.jacobian(x)", "        return self.model.pdf(self.transform(x)) * self.jacobian(x)", rules={"C18": ["C18.shared"], "C06": ["C06.finite"]}, what="original defect (second audit C18#1)")
-M("c18-parameters-without-conditional", "C18", J, "            if \"parameters\" in dist_desc and \"conditional_on\" not in dist_desc:\n                raise ValueError(\n                    \"The dist_description key 'parameters' is only allowed for \"\n                    \"conditional distributions, but 'conditional_on' is \"\n                    f\"missing for dimension {i}.\"\n                )\n", "", rules=["C18.guard"], what="original defect (second audit C18#3)")
-M("c18-twin-parameters-guard-nested", "C18", J, "            if \"parameters\" in dist_desc and \"conditional_on\" not in dist_desc:\n                raise ValueError(", "            if \"parameters\" in dist_desc:\n              if not (\"conditional_on\" in dist_desc):\n                raise ValueError(", expect="pass")
-M("c08-list-given-unconverted", "C08", D, "        if np.ndim(given) > 0:\n            given = np.asarray(given)  # dependence functions do arithmetic on it\n", "", rules=["C08.values"], what="original defect (second audit C08#1)")
-M("c08-list-given-wrong-test", "C08", D, "        if np.ndim(given) > 0:\n            given = np.asarray(given)", "        if np.ndim(given) > 1:\n            given = np.asarray(given)", rules=["C08.values"])
-M("c08-twin-given-always-converted", "C08", D, "        if np.ndim(given) > 0:\n            given = np.asarray(given)  # dependence functions do arithmetic on it\n", "        given = np.asarray(given)\n", expect="pass")
-M("c08-twin-given-isscalar", "C08", D, "        if np.ndim(given) > 0:\n            given = np.asarray(given)", "        if not np.isscalar(given):\n            given = np.asarray(given)", expect="pass")
+M("c18-parameters-without-conditional", "C18", J, "            if \"parameters\" in dist_desc and dist_desc.get(\"conditional_on\") is None:\n                raise ValueError(\n                    \"The dist_description key 'parameters' is only allowed for \"\n                    \"conditional distributions, but 'conditional_on' is \"\n                    f\"missing for dimension {i}.\"\n                )\n", "", rules=["C18.guard"], what="original defect (second audit C18#3)")
+M("c18-twin-parameters-guard-nested", "C18", J, "            if \"parameters\" in dist_desc and dist_desc.get(\"conditional_on\") is None:\n                raise ValueError(", "            if \"parameters\" in dist_desc:\n              if dist_desc.get(\"conditional_on\", None) is None:\n                raise ValueError(", expect="pass")
+M("c08-list-given-unconverted", "C08", D, "        if np.ndim(given) > 0:\n            # dependence functions do arithmetic on it (float: x ** -2 of integers raises)\n            given = np.asarray(given, dtype=float)\n", "", rules=["C08.values"], what="original defect (second audit C08#1)")
+M("c08-list-given-wrong-test", "C08", D, "        if np.ndim(given) > 0:\n            # dependence functions", "        if np.ndim(given) > 1:\n            # dependence functions", rules=["C08.values"])
+M("c08-twin-given-always-converted", "C08", D, "        if np.ndim(given) > 0:\n            # dependence functions do arithmetic on it (float: x ** -2 of integers raises)\n            given = np.asarray(given, dtype=float)\n", "        given = np.asarray(given, dtype=float)\n", expect="pass")
+M("c08-twin-given-isscalar", "C08", D, "        if np.ndim(given) > 0:\n            # dependence functions", "        if not np.isscalar(given):\n            # dependence functions", expect="pass")
 M("c17-on-line-edge-ignored", ["C17", "C20"], U, "        y = np.append(y, y1[x1 == x2])\n", "", rules={"C17": ["C17.result"], "C20": ["C20.design"]}, what="original defect (second audit C17#1)")
 M("c17-on-line-tested-late", "C17", U, "        y = np.append(y, y1[x1 == x2])\n\n        if len(y) == 0:\n            continue\n", "        if len(y) == 0:\n            continue\n        y = np.append(y, y1[x1 == x2])\n", rules=["C17.result"], what="vertices joined only after the abscissa was already skipped")
 M("c17-twin-on-line-concatenate", "C17", U, "        y = np.append(y, y1[x1 == x2])\n", "        on_line = y1[x1 == x2]\n        y = np.concatenate([y, on_line])\n", expect="pass")
